@@ -137,7 +137,7 @@ func dropEmptyKeys(o [][2]string) [][2]string {
 	return out
 }
 
-var byteFaults = []string{"bitflip", "bitflip", "rewrite", "mapping_slack", "mapping_slack", "cert_slack", "cert_slack", "peer_slack", "after_sig", "sig_swap", "key_subst", "replay", "revocation_key_forgery"}
+var byteFaults = []string{"bitflip", "bitflip", "rewrite", "mapping_slack", "mapping_slack", "cert_slack", "cert_slack", "peer_slack", "element_smuggle", "element_smuggle", "after_sig", "sig_swap", "key_subst", "replay", "revocation_key_forgery"}
 var shapeFaults = []string{"offline_forgery", "offline_forgery", "offline_transplant", "store_confusion"}
 
 func (World) Generate(r *engine.RNG, tier string) *engine.Script {
@@ -238,6 +238,16 @@ func applyShapeFault(sh *engine.Shape, f *engine.Fault) bool {
 		return true
 	}
 	return false
+}
+
+// nextIsNot reports whether no field named *suffix starts at offset off.
+func nextIsNot(fr *refmodel.Frame, off int, suffix string) bool {
+	for _, fl := range fr.Fields {
+		if fl.Start == off && strings.HasSuffix(fl.Name, suffix) {
+			return false
+		}
+	}
+	return true
 }
 
 func isShapeFault(k string) bool {
@@ -375,6 +385,104 @@ func applyByteFault(m *message, f *engine.Fault, recorded []*message) bool {
 		}
 		if nf.SigStart >= end {
 			nf.SigStart += n
+		}
+		m.frame = &nf
+		return true
+	case "element_smuggle":
+		// A count field is raised by one and one well-framed element is inserted
+		// at an element boundary: a MetaLeaseSet entry with a type no parser
+		// knows, a LeaseSet2 key of an unknown type, a lease, a router address
+		// with an odd style. Whatever the parser makes of it, the signature
+		// must cover it.
+		type list struct {
+			count string // name of the count field
+			pfx   string // prefix of the element fields
+		}
+		var l list
+		var elem []byte
+		switch m.kind {
+		case "mls":
+			l = list{"num", "entry"}
+			e := refmodel.Expand(uint64(f.N[1]), "smuggled-entry", 38)
+			e[32] = []byte{0, 2, 4, 6, 7, 255}[int(f.N[2])%6]
+			elem = append(e, 0, 0)
+		case "ls2":
+			if int(f.N[2])%2 == 0 {
+				l = list{"numk", "key"}
+				elem = append([]byte{0xFF, 0xFF, 0, 5}, refmodel.Expand(uint64(f.N[1]), "smuggled-key", 5)...)
+			} else {
+				l = list{"num", "lease"}
+				elem = refmodel.Expand(uint64(f.N[1]), "smuggled-lease", 40)
+			}
+		case "leaseset":
+			l = list{"ls_count", "lease"}
+			elem = refmodel.Expand(uint64(f.N[1]), "smuggled-lease", 44)
+		case "rinfo":
+			l = list{"addr_count", "addr"}
+			elem = append([]byte{9, 0, 0, 0, 0, 0, 0, 0, 0, 1, '?'}, 0, 0)
+		default:
+			return false
+		}
+		var cf *refmodel.Field
+		var bounds []int
+		for i := range fr.Fields {
+			fl := &fr.Fields[i]
+			if fl.Name == l.count {
+				cf = fl
+				bounds = append(bounds, fl.End)
+			}
+			if cf != nil && strings.HasPrefix(fl.Name, l.pfx) && !strings.HasPrefix(fl.Name, "keytype") && !strings.HasPrefix(fl.Name, "keylen") {
+				// element fields follow the count; remember where each element ends
+				if m.kind == "ls2" && l.pfx == "key" && !strings.HasPrefix(fl.Name, "key") {
+					continue
+				}
+				bounds = append(bounds, fl.End)
+			}
+		}
+		if cf == nil || cf.Start >= len(raw) || raw[cf.Start] == 255 {
+			return false
+		}
+		// only positions that are element boundaries: after the count, or after
+		// a complete element (for MetaLeaseSet: after its properties mapping)
+		var at []int
+		for _, b := range bounds {
+			ok := b == cf.End
+			for i := range fr.Fields {
+				fl := &fr.Fields[i]
+				if fl.End == b && strings.HasPrefix(fl.Name, l.pfx) {
+					switch {
+					case m.kind == "mls":
+						ok = ok || strings.HasSuffix(fl.Name, "_props")
+					case m.kind == "rinfo":
+						ok = ok || strings.HasSuffix(fl.Name, "opt_body") || (strings.HasSuffix(fl.Name, "opt_size") && nextIsNot(fr, fl.End, "opt_body"))
+					default:
+						ok = true
+					}
+				}
+			}
+			if ok && b <= len(raw) {
+				at = append(at, b)
+			}
+		}
+		if len(at) == 0 {
+			return false
+		}
+		pos := at[int(f.N[0])%len(at)]
+		raw[cf.Start]++
+		out := append([]byte(nil), raw[:pos]...)
+		out = append(out, elem...)
+		out = append(out, raw[pos:]...)
+		m.raw = out
+		nf := *fr
+		nf.Fields = append([]refmodel.Field(nil), fr.Fields...)
+		for i := range nf.Fields {
+			if nf.Fields[i].Start >= pos {
+				nf.Fields[i].Start += len(elem)
+				nf.Fields[i].End += len(elem)
+			}
+		}
+		if nf.SigStart >= pos {
+			nf.SigStart += len(elem)
 		}
 		m.frame = &nf
 		return true
